@@ -200,5 +200,11 @@ func replayFetch(o *out, lines []string) {
 			fc.dump()
 		}
 	}
+	qo, qs, qf, qc := fc.cli.VerifQueues()
+	quiet := 0
+	if qo+qs+qf+qc == 0 && len(fc.eng.pending) == 0 {
+		quiet = 1
+	}
+	o.pf("QUIET %d\n", quiet)
 	o.pf("END\n")
 }
